@@ -883,6 +883,12 @@ def rule_impulsetrain(ctx):
     mode = cor[0].args[2] if len(cor[0].args) > 2 else dict(cor[0].kw).get("mode")
     yield ob(R, f, "beat.p_score:correlate-mode", mode is not None and tm.is_const(mode, "full"), "the trains are correlated in mode 'full': the lag window is cut around the middle of the full correlation" if mode is not None and tm.is_const(mode, "full") else "np.correlate runs in mode %s: the middle-lag arithmetic below assumes the full correlation, and a window wider than the shorter output wraps to a negative slice start" % (tm.show(mode, 1) if mode is not None else "'valid' (the default)"), node=cor[0].node)
     for i, a in enumerate(cor[0].args[:2]):
+        if a.op == "call" and a.a[0].op in ("func", "localfunc") and ctx.program.has_func(call_name(a)):
+            # the train is built by a helper that was not evaluated in place: read the helper's own result
+            hs = ctx.S.get(call_name(a))
+            hr = [r for r in hs.returns]
+            need(len(hr) == 1, R, "p_score: the impulse-train helper %s has several returns" % call_name(a))
+            a = hr[0].term
         o = a
         stores = []
         for _ in range(20):
